@@ -528,6 +528,32 @@ impl Runner {
             eprintln!("  {} : {} inputs", k, n);
         }
         if self.nviol > 0 {
+            // History violations found while other histories ran concurrently may owe their hidden state to another thread
+            // (process-wide state): re-execute the first few in a FRESH PROCESS each and report the first one that
+            // reproduces there, so that the replay named on the VIOLATION line is faithful.
+            if self.viols.first().map(|v| v.call.starts_with("hist")).unwrap_or(false) {
+                if let Ok(exe) = std::env::current_exe() {
+                    let nh = self.viols.iter().take_while(|v| v.call.starts_with("hist")).count().min(16).min(replay_paths.len());
+                    let mut faithful = None;
+                    for i in 0..nh {
+                        let st = std::process::Command::new(&exe).arg("replay").arg(&replay_paths[i]).stdout(std::process::Stdio::null()).stderr(std::process::Stdio::null()).status();
+                        if let Ok(st) = st {
+                            if st.code() == Some(1) {
+                                faithful = Some(i);
+                                break;
+                            }
+                        }
+                    }
+                    match faithful {
+                        Some(i) => {
+                            eprintln!("  history replay {} reproduces in a fresh process ({} tried)", replay_paths[i], i + 1);
+                            replay_paths.swap(0, i);
+                            self.viols.swap(0, i);
+                        }
+                        None => eprintln!("  note: none of the first {} history violations reproduces in a fresh process (state set by concurrent histories); the ordinary violations remain", nh),
+                    }
+                }
+            }
             println!("VIOLATION property={} replay={}", self.property, replay_paths.first().cloned().unwrap_or_default());
             for v in self.viols.iter().take(3) {
                 eprintln!("  first violations: clause={} call={} args={:?}\n     observed={}\n     expected={}", v.clause, v.call, v.args, v.observed, v.expected);
